@@ -491,8 +491,80 @@ func c06MemberNames(c *Ctx) {
 	}
 }
 
+// c06AfterFailures: an encode that fails half-way through a map hands its scratch memory back; the encode that takes it
+// over next (same goroutine, no collection in between) must neither panic nor write anything but its own value
+func c06AfterFailures(c *Ctx) {
+	failing := []any{
+		map[string]json.RawMessage{"a": json.RawMessage(`1`), "b": json.RawMessage(`{"x":`), "c": json.RawMessage(`2`)},
+		map[string]json.RawMessage{"only": json.RawMessage(``)},
+		map[string]any{"a": 1, "b": make(chan int), "c": "z"},
+		map[string]failingMarshaler{"a": {}, "b": {}},
+		map[string]float64{"a": 1, "b": math.NaN(), "c": 3},
+		map[string]map[string]any{"a": {"x": 1}, "b": {"y": func() {}}},
+		map[string][]any{"a": {1}, "b": {make(chan int)}},
+		struct {
+			M map[string]json.RawMessage
+			N map[string]bool
+		}{map[string]json.RawMessage{"q": json.RawMessage(`tru`), "r": json.RawMessage(`true`)}, map[string]bool{"t": true}},
+	}
+	after := []any{
+		map[string]bool{"t": true, "f": false, "g": false},
+		map[string]string{"a": "b", "c": "<d>", "e": ""},
+		map[string][]string{"a": {"x", "y"}, "b": nil, "c": {}},
+		map[string]any{"z": 1, "a": []any{}, "m": map[string]any{"k": nil}},
+		map[string]json.RawMessage{"a": json.RawMessage(`1`), "b": json.RawMessage(`[2]`)},
+		map[string]int{"a": 1, "b": 2, "c": 3, "d": 4},
+		map[string]map[string]bool{"o": {"i": true, "j": false}, "p": {}},
+		struct {
+			A map[string]bool
+			B map[string]string
+		}{map[string]bool{"x": false}, map[string]string{"y": "z"}},
+	}
+	for i, f := range failing {
+		if _, err := stdjson.Marshal(f); err == nil {
+			c.SpecError("C06", "a value that should not be encodable is", i)
+			return
+		}
+		for j, a := range after {
+			want, _ := stdjson.Marshal(a)
+			k := c06Case{Kind: "after-failure", Chain: i*100 + j}
+			c.Case()
+			for rep := 0; rep < 8; rep++ {
+				for _, via := range []string{"Marshal", "Encoder", "Append"} {
+					var got []byte
+					var ferr, err error
+					c.Eval(2)
+					p, hung := guarded(func() {
+						switch via {
+						case "Marshal":
+							_, ferr = json.Marshal(f)
+							got, err = json.Marshal(a)
+						case "Encoder":
+							var w bytes.Buffer
+							e := json.NewEncoder(&w)
+							ferr = e.Encode(f)
+							w.Reset()
+							err = e.Encode(a)
+							got = bytes.TrimSuffix(w.Bytes(), []byte("\n"))
+						default:
+							_, ferr = json.Append(nil, f, json.SortMapKeys|json.EscapeHTML)
+							got, err = json.Append(nil, a, json.SortMapKeys|json.EscapeHTML)
+						}
+					})
+					if p != "" || hung || ferr == nil || err != nil || !bytes.Equal(got, want) {
+						c.Diverge("C06", "json."+via+"(a map after an encode that failed inside a map)", string(want),
+							fmt.Sprintf("%s err=%v first=%v %s hung=%v", clipS(string(got)), err, ferr, p, hung), "", k)
+						return
+					}
+				}
+			}
+		}
+	}
+}
+
 func c06Extra(c *Ctx) {
 	c06CyclicTargets(c)
+	c06AfterFailures(c)
 	c06MemberNames(c)
 	// cycles and dead-end chains at the cycle detector's threshold
 	for _, n := range []int{1, 2, 3, 999, 1000, 1001, 2500} {
@@ -618,7 +690,7 @@ func c06Replay(c *Ctx, raw stdjson.RawMessage) {
 		c06Cycle(c, &cycleVec{Edges: k.Edges, Cyclic: &cy})
 	case k.Kind == "chain" || k.Kind == "struct-chain":
 		c06Chain(c, k.Chain, k.Via, k.Cyclic)
-	case strings.HasPrefix(k.Kind, "deep:"), k.Kind == "duration", k.Kind == "time", k.Kind == "typed-cycle", k.Kind == "cyclic-target":
+	case strings.HasPrefix(k.Kind, "deep:"), k.Kind == "duration", k.Kind == "time", k.Kind == "typed-cycle", k.Kind == "cyclic-target", k.Kind == "after-failure":
 		c06Extra(c)
 	case k.Kind == "doc":
 		c06Decode(c, k, []byte(k.Doc))
